@@ -58,6 +58,19 @@ Definition super_and_bgd_loc (s : sbinfo) (g : N) : N * N * N * N :=
     (super_blk, 0, gb + (if hs then 1 else 0), n0 + 1)
   else (super_blk, 0, 0, n0).
 
+(* ext2fs_descriptor_block_loc2 (lib/ext2fs/openfs.c): where descriptor block i is read from when the
+   superblock in use sits at group_block (the primary one at first_data_block, or a backup);
+   bigalloc's group-zero adjustment is outside the model *)
+Definition descriptor_block_loc (s : sbinfo) (blocks_count group_block i : N) : N :=
+  if negb (meta_bg s) || (i <? first_meta_bg s) then group_block + i + 1
+  else
+    let bg := desc_per_block s * i in
+    let hs0 := if bg_has_super s bg then 1 else 0 in
+    let ret := group_first_block s bg in
+    if negb (group_block =? first_data_block s) && (ret + hs0 + blocks_per_group s <? blocks_count)
+    then ret + blocks_per_group s + (if bg_has_super s (bg + 1) then 1 else 0)
+    else ret + hs0.
+
 (* ext2fs_list_backups for sparse_super: state (three, five, seven); dgrp_t saturates at 2^32-1 *)
 Definition DGRP_MAX := 4294967295.
 Definition list_backups_step (st : N * N * N) : N * (N * N * N) :=
